@@ -18,7 +18,8 @@
    ordinary-lane waiter paths of Model/SyncWait.v), which this model does not contain; work items do not submit to the
    main queue from inside their own callout; no suspension / retargeting of the main queue. *)
 From Coq Require Import ZArith Bool List.
-From Verif Require Import Word Conc Gen_consts Gen_dqstate SLane SLane_proofs MainQ MainQ_inv MainQ_proofs.
+From Verif Require Import Word Conc Gen_consts Gen_fields Gen_dqstate Gen_mainq SLane SLane_proofs MainQ MainQT MainQ_inv MainQ_proofs MainQ_extra
+  MainQT_sites.
 Import ListNotations.
 Local Open Scope Z_scope.
 
@@ -88,6 +89,15 @@ Theorem C02_mainq_sync_returns_after_run : forall m prio rb, valid_tid m -> 0 <=
 Proof. exact mainq_sync_returns_after_run. Qed.
 Print Assumptions C02_mainq_sync_returns_after_run.
 
+
+(* ... and the context was run (started and finished) exactly once: ids start at most once *)
+Theorem C02_mainq_sync_ran_once : forall m prio rb s t,
+  valid_tid m -> 0 <= rb < 2 -> mreach m prio rb s -> mpcs s t = MS_woken ->
+  In (w_item (ws s t)) (started (lane s)) /\ In (w_item (ws s t)) (finished s) /\ In (w_item (ws s t)) (mainran s) /\
+  NoDup (started (lane s)).
+Proof. exact mainq_sync_ran_once. Qed.
+Print Assumptions C02_mainq_sync_ran_once.
+
 (* the barrier-sync fast path refuses the thread-bound word (owner bits set): the caller always queues its context *)
 Theorem C02_mainq_sync_never_fast : forall m prio rb, valid_tid m -> 0 <= rb < 2 -> forall s t q,
   mreach m prio rb s -> mpcs s t = MS_fast q \/ mpcs s t = MS_prep q ->
@@ -116,6 +126,26 @@ Theorem C02_mainq_lane_not_stranded : forall m prio rb, valid_tid m -> 0 <= rb <
   (forall t, pcs (lane s) t = Idle) -> lst (lane s) <> [] -> rootq (lane s) = 1 /\ token (lane s) = Some None.
 Proof. exact mainq_lane_not_stranded. Qed.
 Print Assumptions C02_mainq_lane_not_stranded.
+
+
+(* tie of the observation automaton (Model/MainQT.v, replayed on every recorded thread trace) to the source: its atomic
+   sites are, in program order, with their memory orders, the sites of the main-queue functions as translated on this run *)
+Theorem C02_mainq_sites_match :
+  [os S_item_next_st F_do_next; qs S_xchg_tail; os S_item_next_st F_do_next; qs S_st_head] = f_dispatch_main_queue_push_sites /\
+  [qs S_ld_state; qs S_cas_rlx] = f_dispatch_runloop_queue_poke_sites /\
+  [qs S_flags; qs S_dirty_or; qs S_probe; qs S_ld_state; qs S_cas_rlx; qs S_reset; qs S_ld_state; qs S_probe; qs S_ld_state; qs S_cas_rlx]
+    = f_dispatch_runloop_queue_wakeup_sites /\
+  qs S_flags :: f_dispatch_runloop_queue_wakeup_sites = f_dispatch_main_queue_wakeup_sites /\
+  [qs S_flags; qs S_ld_state; qs S_ld_state; get_head_site; qs S_st_head; qs S_xchg_tail; os S_item_next_ld F_do_next]
+    = f_dispatch_main_queue_drain_sites /\
+  [qs S_ld_state; get_head_site; item_flags_site; item_flags_site; qs S_ld_state; qs S_dirty_xor; qs S_cas_rel]
+    = f_dispatch_lane_barrier_complete_sites /\
+  [qs S_ld_state; qs S_cas_acq; qs S_flags_clr] ++ f_dispatch_lane_barrier_complete_sites = f_dispatch_queue_cleanup2_sites.
+Proof.
+  exact (conj sites_main_queue_push (conj sites_runloop_queue_poke (conj sites_runloop_queue_wakeup (conj sites_main_queue_wakeup
+        (conj sites_main_queue_drain (conj sites_lane_barrier_complete sites_queue_cleanup2)))))).
+Qed.
+Print Assumptions C02_mainq_sites_match.
 
 (* non-vacuity: 2 pushers + 1 synchronous caller parked, the bound thread drains, dispatch_main(), a worker drains *)
 Example C02_mainq_nonvacuous :
